@@ -472,6 +472,14 @@ def _family(draw):
         f"{c} v. {d}, {cite} (2001). {a} at 5 and {c} at 6. Id. at 7.",
         f"See {cite}. {a} at 5.",
     ]
+    # the same (single usable) party name in different roles, in different cases
+    c1, c2, c3 = (f"{draw(st.integers(1, 500))} U.S. {draw(st.integers(1, 900))}" for _ in range(3))
+    docs += [
+        f"The leading case is {a} v. Acme Inc., {c1} (1990). As explained in {a} at 5, the rule is settled.",
+        f"Compare In re {a}, {c2} (1991). The court in {a} at 7 held otherwise.",
+        f"State v. {a}, {c3}. {a} at 9 and {b} at 3.",
+        f"{b} v. United States, {c1}. {b} at 2.",
+    ]
     texts = draw(st.lists(st.sampled_from(docs), min_size=2, max_size=4))
     ops = draw(st.lists(st.tuples(st.integers(0, 3), st.integers(0, 1)).map(list), min_size=2, max_size=10))
     return {"kind": "history", "texts": texts, "ops": ops}
